@@ -36,6 +36,7 @@ VALUES = {
         'highprec': [D('1.000000000000000000000000000001'), D('3.14159265358979323846264338327950288')],
         'exp': [D('1E+3'), D('2.5E-7')],
         'int_valued': [D('7'), 3.0],
+        'nonfinite': [D('NaN'), D('Infinity'), D('-Infinity')],
     },
     'boolean': {'bool': [True, False]},
     'date': {
